@@ -497,6 +497,7 @@ func merge(ctx context.Context, cs ...chan P2PMessage) chan P2PMessage {
 	// Start an output goroutine for each input channel in cs.  output
 	// copies values from c to out until c is closed, then calls wg.Done.
 	output := func(c <-chan P2PMessage) {
+		defer wg.Done()
 		for n := range c {
 			select {
 			case <-ctx.Done():
@@ -504,7 +505,6 @@ func merge(ctx context.Context, cs ...chan P2PMessage) chan P2PMessage {
 			case out <- n:
 			}
 		}
-		wg.Done()
 	}
 	wg.Add(len(cs))
 	for _, c := range cs {
